@@ -10,7 +10,7 @@ from .. import runs_common as rc
 
 ID = "C10"
 LEVEL = "exploration"
-BUDGET = {"quick": 400, "thorough": 25000}
+BUDGET = {"quick": 700, "thorough": 25000}
 SHARDS = {"quick": 8, "thorough": 16}
 RULE = (
     "case = whole run of sampler in {importance, smc, emcee_smc, minipcn, emcee} x preconditioning option set x namespace x "
